@@ -232,10 +232,10 @@ fn determine_target(
 
     let mut host_header: Option<String> = None;
     for header in headers {
-        if let Some(rest) = header.strip_prefix("Host:") {
-            host_header = Some(rest.trim().to_string());
-            break;
-        } else if let Some(rest) = header.strip_prefix("host:") {
+        // Field names are case-insensitive (RFC 7230 3.2): `Host:`, `host:` and `HOST:` are the same header
+        if let Some((name, rest)) = header.split_once(':')
+            && name.eq_ignore_ascii_case("host")
+        {
             host_header = Some(rest.trim().to_string());
             break;
         }
